@@ -90,13 +90,44 @@ pixman_sample_floor_y (pixman_fixed_t y,
 /*
  * Step an edge by any amount (including negative values)
  */
+/* Clamp a 48.16 intermediate result to what a pixman_fixed_t can hold,
+ * symmetrically, so that the result can also be negated.
+ */
+static pixman_fixed_t
+clamp_to_fixed (pixman_fixed_48_16_t v)
+{
+    if (v > pixman_max_fixed_48_16)
+	return (pixman_fixed_t)pixman_max_fixed_48_16;
+    if (v < -pixman_max_fixed_48_16)
+	return (pixman_fixed_t)-pixman_max_fixed_48_16;
+
+    return (pixman_fixed_t)v;
+}
+
+/* The position of an edge is kept two pixels short of the ends of the
+ * 16.16 range: the rasterisers still add a sub-pixel sample offset to it
+ * before they clip it against the image.
+ */
+static pixman_fixed_t
+clamp_edge_x (pixman_fixed_48_16_t x)
+{
+    pixman_fixed_48_16_t max = pixman_max_fixed_48_16 - 2 * pixman_fixed_1;
+
+    if (x > max)
+	return (pixman_fixed_t)max;
+    if (x < -max)
+	return (pixman_fixed_t)-max;
+
+    return (pixman_fixed_t)x;
+}
+
 PIXMAN_EXPORT void
 pixman_edge_step (pixman_edge_t *e,
                   int            n)
 {
     pixman_fixed_48_16_t ne;
 
-    e->x += n * e->stepx;
+    e->x = clamp_edge_x (e->x + n * (pixman_fixed_48_16_t) e->stepx);
 
     ne = e->e + n * (pixman_fixed_48_16_t) e->dx;
 
@@ -164,8 +195,12 @@ pixman_edge_init (pixman_edge_t *e,
 
     e->x = x_top;
     e->e = 0;
-    dx = x_bot - x_top;
-    dy = y_bot - y_top;
+    /* The two ends of an edge can be further apart than a
+     * pixman_fixed_t can express (-32767 to +32767); such an edge
+     * keeps its direction but not its exact slope.
+     */
+    dx = clamp_to_fixed ((pixman_fixed_48_16_t) x_bot - x_top);
+    dy = clamp_to_fixed ((pixman_fixed_48_16_t) y_bot - y_top);
     e->dy = dy;
     e->dx = 0;
 
@@ -192,7 +227,7 @@ pixman_edge_init (pixman_edge_t *e,
 	_pixman_edge_multi_init (e, STEP_Y_BIG (n),
 				 &e->stepx_big, &e->dx_big);
     }
-    pixman_edge_step (e, y_start - y_top);
+    pixman_edge_step (e, clamp_to_fixed ((pixman_fixed_48_16_t) y_start - y_top));
 }
 
 /* Add an offset to a coordinate without wrapping around: the sum of a
@@ -208,26 +243,6 @@ add_offset_saturate (pixman_fixed_t v, pixman_fixed_t offset)
 	return (pixman_fixed_t)pixman_max_fixed_48_16;
     if (sum < pixman_min_fixed_48_16)
 	return (pixman_fixed_t)pixman_min_fixed_48_16;
-
-    return (pixman_fixed_t)sum;
-}
-
-/* The x coordinate of an edge end point plus the drawing offset,
- * saturated two pixels short of the ends of the 16.16 range: the
- * rasterisers still add a sub-pixel sample offset to the edge position
- * before they clip it against the image.
- */
-static pixman_fixed_t
-saturate_edge_x (pixman_fixed_t x, pixman_fixed_t offset)
-{
-    pixman_fixed_48_16_t sum = (pixman_fixed_48_16_t)x + offset;
-    pixman_fixed_48_16_t max = pixman_max_fixed_48_16 - 2 * pixman_fixed_1;
-    pixman_fixed_48_16_t min = pixman_min_fixed_48_16 + 2 * pixman_fixed_1;
-
-    if (sum > max)
-	return (pixman_fixed_t)max;
-    if (sum < min)
-	return (pixman_fixed_t)min;
 
     return (pixman_fixed_t)sum;
 }
@@ -267,9 +282,9 @@ pixman_line_fixed_edge_init (pixman_edge_t *            e,
      * unsigned arithmetic, where that is defined.
      */
     pixman_edge_init (e, n, y,
-                      saturate_edge_x (top->x, x_off_fixed),
+                      clamp_edge_x ((pixman_fixed_48_16_t) top->x + x_off_fixed),
                       (pixman_fixed_t)((uint32_t)top->y + (uint32_t)y_off_fixed),
-                      saturate_edge_x (bot->x, x_off_fixed),
+                      clamp_edge_x ((pixman_fixed_48_16_t) bot->x + x_off_fixed),
                       (pixman_fixed_t)((uint32_t)bot->y + (uint32_t)y_off_fixed));
 }
 
